@@ -3,7 +3,7 @@
    differs only in the leaf for floats (a JSON number without a fraction is integer and float alike).
    The property itself is about the two separate implementations: it is decided by the differential run
    of the code (JSON text vs CBOR encoding of the same value), with this model as the arbiter. *)
-From Cddl Require Import Sem.Syntax Sem.Validator Sem.Sem Sem.Decides Sem.Agree.
+From Cddl Require Import Sem.Syntax Sem.Validator Sem.Sem Sem.Decides Sem.Agree Sem.AgreeAll.
 Open Scope Z_scope.
 
 (* the only point where the two readings differ *)
@@ -16,3 +16,32 @@ Theorem C04_both_decided : forall e f t v bj bc,
   vt f true e t v = Some bj -> vt f false e t v = Some bc ->
   (bj = true <-> MatchT true e t v) /\ (bc = true <-> MatchT false e t v).
 Proof. exact both_decided. Qed.
+
+(* whole-decider agreement (Sem/AgreeAll.v): when no float type is reachable - the schema's own rules
+   are float-free (nofloat_env, a boolean) and do not refer to float16/32/64, float or number of the
+   prelude - the JSON reading and the CBOR reading give the same answer on EVERY value at EVERY fuel,
+   "undecided" included.  So on such schemas a difference between validate_json_from_str and
+   validate_cbor_from_slice is a departure of one of them from the model (C01 / C02). *)
+Theorem C04_agree_float_free : forall e f t v,
+  nofloat_env e = true -> nofloat t = true -> vt f true e t v = vt f false e t v.
+Proof. exact agree_float_free. Qed.
+
+Theorem C04_verdict_float_free : forall e f v,
+  nofloat_env e = true -> verdict f true e v = verdict f false e v.
+Proof. exact verdict_float_free. Qed.
+
+(* the hypothesis is satisfiable by a schema with arrays, maps, choices, controls and references ... *)
+Example C04_float_free_example :
+  let e := [ (1%N, DType (TMap (GSeq (GEnt (Some (TLit (LText [97%N]))) true (TRef 2%N))
+                                      (GOcc 0 None (GEnt (Some (TRef 1006%N)) false (TArr (GOcc 1 (Some 3%N) (GEnt None false (TRef 1003%N))))))))) ;
+             (2%N, DType (TOr (TCtl CSize (TRef 1006%N) (TRange 1 3 true)) (TRef 1015%N))) ] in
+  nofloat_env e = true /\
+  verdict 40 true e (VMap [(VText [97%N], VText [120%N; 121%N]); (VText [98%N], VArr [VInt 1; VInt (-2)])]) = [84%N] /\
+  verdict 40 false e (VMap [(VText [97%N], VText [120%N; 121%N]); (VText [98%N], VArr [VInt 1; VInt (-2)])]) = [84%N] /\
+  verdict 40 true e (VMap [(VText [97%N], VInt 3)]) = [70%N].
+Proof. vm_compute. repeat split; reflexivity. Qed.
+
+(* ... and it is needed: with a float type the two readings differ on an integer *)
+Theorem C04_float_leaf_differs :
+  exists e v, verdict 10 true e v = [84%N] /\ verdict 10 false e v = [70%N].
+Proof. exists [(1%N, DType (TRef 1011%N))], (VInt 2). vm_compute. split; reflexivity. Qed.
